@@ -37,26 +37,18 @@ Qed.
 Lemma wr_bytes_spec : forall b d off o,
   wr_bytes d off b o =
   if (off <=? o) && (o <? off + N.of_nat (length b)) then nth (N.to_nat (o - off)) b 0 else d o.
-Proof.
-  induction b as [|x r IH]; intros d off o; cbn [wr_bytes length].
-  - destruct (N.leb_spec off o), (N.ltb_spec o (off + N.of_nat 0)); cbn [andb]; try reflexivity; lia.
-  - rewrite IH, Nat2N.inj_succ. cbv beta.
-    destruct (N.eqb_spec o off) as [->|Ho].
-    + destruct (N.leb_spec (off + 1) off); [lia|]. cbn [andb].
-      destruct (N.leb_spec off off); [|lia]. destruct (N.ltb_spec off (off + N.succ (N.of_nat (length r)))); [|lia].
-      cbn [andb]. replace (N.to_nat (off - off)) with O by lia. reflexivity.
-    + destruct (N.leb_spec (off + 1) o), (N.ltb_spec o (off + 1 + N.of_nat (length r))),
-               (N.leb_spec off o), (N.ltb_spec o (off + N.succ (N.of_nat (length r)))); cbn [andb]; try lia;
-        try (destruct (N.eqb_spec o off); [lia|reflexivity]).
-      replace (N.to_nat (o - off)) with (S (N.to_nat (o - (off + 1)))) by lia. reflexivity.
-Qed.
+Proof. reflexivity. Qed.
 
-Lemma wr_bytes_app : forall a b d off,
-  wr_bytes d off (a ++ b) = wr_bytes (wr_bytes d off a) (off + N.of_nat (length a)) b.
+Lemma wr_bytes_app : forall a b d off o,
+  wr_bytes d off (a ++ b) o = wr_bytes (wr_bytes d off a) (off + N.of_nat (length a)) b o.
 Proof.
-  induction a as [|x r IH]; intros b d off; cbn [wr_bytes app length].
-  - f_equal. lia.
-  - rewrite IH. f_equal. lia.
+  intros a b d off o. rewrite !wr_bytes_spec, app_length, Nat2N.inj_add.
+  destruct (N.leb_spec off o); destruct (N.ltb_spec o (off + (N.of_nat (length a) + N.of_nat (length b))));
+    destruct (N.leb_spec (off + N.of_nat (length a)) o);
+    destruct (N.ltb_spec o (off + N.of_nat (length a) + N.of_nat (length b)));
+    destruct (N.ltb_spec o (off + N.of_nat (length a))); cbn [andb]; try lia; try reflexivity.
+  - rewrite app_nth2 by lia. f_equal. lia.
+  - rewrite app_nth1 by lia. reflexivity.
 Qed.
 
 Lemma rd_wr_same d off b : rd_bytes (wr_bytes d off b) off (length b) = b.
@@ -447,6 +439,16 @@ Proof.
       f_equal. rewrite N2Nat.id. lia.
 Qed.
 
+Lemma Inv_ext s sp sp' : Inv s sp -> (forall o, sp o = sp' o) -> Inv s sp'.
+Proof.
+  intros I E. constructor.
+  - apply (i_bs _ _ I).
+  - intros e He U. rewrite (i_buf _ _ I e He U). apply rd_bytes_ext. intros; apply E.
+  - intros o Ho. rewrite <- E. apply (i_dsk _ _ I); auto.
+  - apply (i_noc _ _ I).
+  - apply (i_uniq _ _ I).
+Qed.
+
 Lemma wr_cached_ok : forall cnt s blk data sp,
   Inv s sp -> nocache s = false -> wthru s = false -> (0 < length (cache s))%nat ->
   length data = (cnt * N.to_nat (bs s))%nat ->
@@ -455,7 +457,9 @@ Lemma wr_cached_ok : forall cnt s blk data sp,
   bs s' = bs s /\ nocache s' = false /\ wthru s' = false /\ length (cache s') = length (cache s).
 Proof.
   induction cnt; intros s blk data sp I NC WT HL Hlen; cbn [wr_cached].
-  - destruct data; [|discriminate]. cbn [wr_bytes]. split; [exact I|]. repeat split; auto.
+  - destruct data; [|discriminate]. split; [|repeat split; auto].
+    apply (Inv_ext s sp); auto. intros o. rewrite wr_bytes_spec. cbn [length].
+    destruct (N.leb_spec (blk * bs s) o); destruct (N.ltb_spec o (blk * bs s + N.of_nat 0)); cbn [andb]; auto; lia.
   - pose proof (i_bs _ _ I) as Hb.
     set (bsn := N.to_nat (bs s)) in *.
     set (buf := firstn bsn data). set (rest := skipn bsn data).
@@ -464,10 +468,10 @@ Proof.
     set (sp1 := wr_bytes sp (blk * bs s) buf).
     assert (Hsp1 : forall o, sp1 o = if inblk (bs s) blk o then nth (N.to_nat (o - blk * bs s)) buf 0 else sp o).
     { intros o. unfold sp1, inblk. rewrite wr_bytes_spec, Lb. unfold bsn. rewrite N2Nat.id. reflexivity. }
-    assert (Hfin : wr_bytes sp (blk * bs s) data = wr_bytes sp1 ((blk + 1) * bs s) rest).
-    { rewrite <- (firstn_skipn bsn data) at 1. fold buf rest. rewrite wr_bytes_app. fold sp1.
-      f_equal. rewrite Lb. unfold bsn. lia. }
-    rewrite Hfin.
+    assert (Hfin : forall o, wr_bytes sp1 ((blk + 1) * bs s) rest o = wr_bytes sp (blk * bs s) data o).
+    { intros o. rewrite <- (firstn_skipn bsn data). fold buf rest. rewrite wr_bytes_app. fold sp1.
+      rewrite Lb. unfold bsn. rewrite N2Nat.id. replace (blk * bs s + bs s) with ((blk + 1) * bs s) by lia. reflexivity. }
+
     destruct (find_idx blk (cache s) 0) as [i|] eqn:F.
     + destruct (find_idx_some _ _ _ _ F) as (_ & F2 & F3 & F4). rewrite Nat.sub_0_r in *.
       cbn [touch bs cache clock nocache wthru dsk]. rewrite set_nth_twice, WT, NC. cbn [negb].
@@ -480,7 +484,8 @@ Proof.
       destruct (IHcnt s2 (blk + 1) rest sp1 I2 eq_refl eq_refl) as (J1 & J2 & J3 & J4 & J5).
       { unfold s2. cbn [cache]. rewrite length_set_nth. auto. }
       { unfold s2. cbn [bs]. exact Lr. }
-      unfold s2 in *. cbn [bs cache] in *. rewrite length_set_nth in J5. auto.
+      unfold s2 in *. cbn [bs cache] in *. rewrite length_set_nth in J5.
+      split; [eapply Inv_ext; [exact J1|exact Hfin]|auto].
     + pose proof (find_idx_none _ _ _ F) as FN.
       set (i := victim (cache s)). assert (Hi : (i < length (cache s))%nat) by (apply victim_lt; auto).
       cbn [reuse bs cache clock nocache wthru dsk]. rewrite set_nth_twice, WT, NC. cbn [negb].
@@ -497,7 +502,8 @@ Proof.
       destruct (IHcnt s2 (blk + 1) rest sp1 I2 eq_refl eq_refl) as (J1 & J2 & J3 & J4 & J5).
       { unfold s2. cbn [cache]. rewrite length_set_nth. auto. }
       { unfold s2. cbn [bs]. exact Lr. }
-      unfold s2 in *. cbn [bs cache] in *. rewrite length_set_nth in J5. auto.
+      unfold s2 in *. cbn [bs cache] in *. rewrite length_set_nth in J5.
+      split; [eapply Inv_ext; [exact J1|exact Hfin]|auto].
 Qed.
 
 Lemma Inv_clean bsz c ck nc wt (d sp : disk) :
